@@ -26,15 +26,20 @@ import itertools
 
 ID = "C12"
 LEVEL = "fault_enumeration"
-RULE = ("case = (activation config: Type 4A/4B, FSCI 0-8, FWI 0-14, device max_send/max_recv, card response block size) x "
+RULE = ("case = (activation config: Type 4A/4B, FSCI 0-8, FWI 0-14, device max_send/max_recv, card response block size; Type 4B "
+        "with the basic 12-byte and the extended 13-byte ATQB whose 4th protocol info byte carries an SFGI different from "
+        "FSCI and FWI: in the fault enumeration every second 4B configuration, plus the enumeration of every (FSCI, FWI, "
+        "SFGI) with pairwise different values on a card that uses its whole FWT) x "
         "(command length, response length around multiples of the block payload, transceive / send_apdu, status word) x "
         "(WTX positions) x (fault script over the frame exchanges of the APDU exchange); scripts are enumerated "
         "exhaustively for <= 2 faults (thorough <= 3) over {L,l,C,c} x positions for exchanges of <= 10 (16) frames, "
         "every 'card gone from frame j', every single WTX position x every single fault, random scripts with up to 5 "
         "faults beyond; distinct by the whole descriptor; non-trivial if a fault was consumed, a WTX was sent or "
         "chaining took place")
-ASSUMPTIONS = ["in the ATS variant cases the card answers at the end of its frame waiting time: a time-out handed to exchange() that "
-               "is shorter than the card's FWT loses the response (elsewhere time-out values are not judged)",
+ASSUMPTIONS = ["in the ATS variant and ATQB variant cases the card answers at the end of its frame waiting time: a time-out handed to "
+               "exchange() that is shorter than the card's FWT loses the response (elsewhere time-out values are not judged)",
+               "the simulated reader device polls like nfc.clf.rcs380 (SENSB_REQ 05 00 10: extended ATQB supported), so the 13-byte "
+               "extended ATQB of ISO/IEC 14443-3 7.9.4 is a conformant answer; FSC and FWI are the card model's own configuration",
                "vf.sim.t4t.T4TCard follows the PICC rules of ISO/IEC 14443-4 7.5.4 (block numbering, rules 9-13, D, E)",
                "a corrupted command is ignored by the card (it cannot tell it from noise) and shows as a time-out",
                "the retry budget is the FWT derived one documented in DESIGN C12: min(int(1 s / FWT), 5) retries",
@@ -42,7 +47,8 @@ ASSUMPTIONS = ["in the ATS variant cases the card answers at the end of its fram
                "SFGT is not judged"]
 REQUIRED = ["exchanges", "executions_checked", "responses_compared", "frame_size_checked", "recovered", "reported_t4error",
             "recovery_required_checked", "pcd_I_chain", "card_I_chain", "pcd_RNAK", "pcd_RACK", "card_SWTX",
-            "card_retransmit", "type4a", "type4b", "followup_checked", "card_gone_cases"]
+            "card_retransmit", "type4a", "type4b", "followup_checked", "card_gone_cases", "type4b_extended_atqb",
+            "type4b_extended_atqb_pcd_chaining", "atqb_variant_exchanges", "atqb_variant_extended"]
 
 FSC_TABLE = (16, 24, 32, 40, 48, 64, 96, 128, 256)
 
@@ -137,11 +143,12 @@ class Session(object):
         from vf.sim import t4t, tagdevice
         self.nfc_clf = nfc.clf
         self.cfg = cfg
+        ext = cfg["kind"] == "B" and cfg.get("sfgi") is not None
         self.card = t4t.T4TCard(kind=cfg["kind"], fsci=cfg["fsci"], fwi=cfg["fwi"], resp_chunk=cfg.get("chunk"),
-                                ats=cfg.get("ats"))
+                                ats=cfg.get("ats"), sfgi=cfg["sfgi"] if ext else 0, ext_atqb=ext)
         self.cur = {}
         self.card.responder = self._respond
-        if cfg.get("ats") is not None:
+        if cfg.get("ats") is not None or cfg.get("timed"):
             self.clf, self.dev, self.tag = timed_activate(self.card, cfg["max_send"], cfg["max_recv"])
         else:
             self.clf, self.dev, self.tag = tagdevice.activate(self.card, max_send=cfg["max_send"], max_recv=cfg["max_recv"])
@@ -213,7 +220,13 @@ def run_case(case, R, count=True):
     prev_rsp = None
     for w in range(case.get("warm", 0)):
         fn, apdu, exp = S.build({"via": "transceive", "clen": 5 + w, "rlen": 4, "id": 0xFF00 + w})
-        prev_rsp = bytes(fn())
+        try:
+            prev_rsp = bytes(fn())
+        except tt4.Type4TagCommandError as e:
+            # a fault free single block exchange directly after activation (no script is installed yet)
+            wctx = ("atqb-extended" if cfg.get("sfgi") is not None else "atqb-basic") if cfg.get("timed") else "plain"
+            bad("fault-free-exchange-failed/%s" % wctx, "the fault free exchange before the one under test failed: errno %s" % e.errno)
+            return viol
     # ---- the exchange under test
     fn, apdu, exp = S.build(x)
     base = dev.n_commands
@@ -284,6 +297,13 @@ def run_case(case, R, count=True):
         if count:
             R.count("ats_variant_exchanges")
             R.count("ats_variant_short_timeouts", dev.short_timeouts)
+    ext_atqb = cfg["kind"] == "B" and cfg.get("sfgi") is not None
+    if cfg.get("timed") and cfg["kind"] == "B":
+        ctx = "atqb-extended" if ext_atqb else "atqb-basic"
+        if count:
+            R.count("atqb_variant_exchanges")
+            R.count("atqb_variant_extended" if ext_atqb else "atqb_variant_basic")
+            R.count("atqb_variant_short_timeouts", dev.short_timeouts)
 
     # ---- wire monitor
     n_frames = 0
@@ -318,6 +338,12 @@ def run_case(case, R, count=True):
         R.count("card_ignored_blocks", card.blocks["ignored"])
         R.count("exchanges")
         R.count("type4a" if cfg["kind"] == "A" else "type4b")
+        if ext_atqb:
+            R.count("type4b_extended_atqb")
+            R.seen("extended_atqb_sfgi", cfg["sfgi"])
+            R.max("extended_atqb_sensb_res_len", len(card.sensb_res))
+            if any(c is not None and c[0] & 0xF2 == 0x12 for _n, c, _r in dev.log[log0:]):
+                R.count("type4b_extended_atqb_pcd_chaining")
         R.seen("fsci", cfg["fsci"])
         R.seen("fwi", cfg["fwi"])
         R.seen("retry_budget", budget(cfg["fwi"]))
@@ -446,6 +472,7 @@ def plan(tier, seed):
     for i, c in enumerate(combos):
         shards[i % n]["combos"].append(list(c))
     for i, s in enumerate(shards):
+        s["nshards"] = n
         s["pairs_shapes"] = 24 if tier == "quick" else 81
         s["triples_shapes"] = 0 if tier == "quick" else 6
         s["max_frames"] = 10 if tier == "quick" else 16
@@ -457,6 +484,25 @@ def plan(tier, seed):
 
 FWI_CYCLE = [4, 0, 8, 9, 10, 11, 12, 14, 1, 2, 3, 5, 6, 7, 13]
 DEV_CYCLE = [(290, 290), (290, 255), (64, 290), (40, 64), (290, 290), (19, 290)]
+
+
+def pick_sfgi(fsci, fwi, salt):
+    """an SFGI (0..14) that differs from the FSCI and the FWI of the same ATQB"""
+    cand = [v for v in range(15) if v != fsci and v != fwi]
+    return cand[salt % len(cand)]
+
+
+def atqb_triples():
+    """(FSCI, FWI, SFGI | None): the basic ATQB for every (FSCI, FWI) and the extended ATQB for every combination of
+    pairwise different values"""
+    out = []
+    for fsci in range(9):
+        for fwi in range(15):
+            out.append((fsci, fwi, None))
+            for sfgi in range(15):
+                if len({fsci, fwi, sfgi}) == 3:
+                    out.append((fsci, fwi, sfgi))
+    return out
 
 
 def run(desc, R, rng):
@@ -475,7 +521,13 @@ def run(desc, R, rng):
             fwi = FWI_CYCLE[(desc["shard"] * 3 + fsci + j * 5 + n_cfg) % len(FWI_CYCLE)]
             ms, mr = DEV_CYCLE[(desc["shard"] + j + fsci) % len(DEV_CYCLE)] if j else (290, 290)
             chunk = None if j < 2 else rng.choice([None, 1, 5, FSC_TABLE[fsci] - 4])
-            variants.append({"kind": kind, "fsci": fsci, "fwi": fwi, "max_send": ms, "max_recv": mr, "chunk": chunk})
+            cfg = {"kind": kind, "fsci": fsci, "fwi": fwi, "max_send": ms, "max_recv": mr, "chunk": chunk}
+            if kind == "B" and (j + fsci) % 2 == 1:
+                # extended ATQB (13 byte SENSB_RES): FSCI, FWI and SFGI pairwise different
+                if fwi == fsci:
+                    cfg["fwi"] = fwi = FWI_CYCLE[(FWI_CYCLE.index(fwi) + 1) % len(FWI_CYCLE)]
+                cfg["sfgi"] = pick_sfgi(fsci, fwi, desc["shard"] + j)
+            variants.append(cfg)
         n_cfg += 1
         for vi, cfg in enumerate(variants):
             run_cfg(desc, R, rng, cfg, ident, primary=(vi == 0))
@@ -483,9 +535,22 @@ def run(desc, R, rng):
     for fwi in range(15):
         kind, fsci = desc["combos"][0]
         cfg = {"kind": kind, "fsci": fsci, "fwi": fwi, "max_send": 290, "max_recv": 290, "chunk": None}
+        if kind == "B" and fwi != fsci and fwi & 1:
+            cfg["sfgi"] = pick_sfgi(fsci, fwi, fwi)
         mc, mr = pcd_chunk(cfg), card_chunk(cfg)
         x = {"via": "transceive", "clen": mc + 1, "rlen": mr, "id": next(ident) & 0xFFFF}
         sweep(R, cfg, x, 1, desc["max_frames"], warm=fwi & 1)
+    # Type 4B activation variants: basic ATQB for every (FSCI, FWI), extended ATQB for every (FSCI, FWI, SFGI) with pairwise
+    # different values; command and response chaining, fault free and with one lost response; the card uses its whole FWT
+    triples = atqb_triples()
+    for fsci, fwi, sfgi in triples[desc["shard"]::desc.get("nshards", 16)]:
+        cfg = {"kind": "B", "fsci": fsci, "fwi": fwi, "max_send": 290, "max_recv": 290, "chunk": None, "timed": True}
+        if sfgi is not None:
+            cfg["sfgi"] = sfgi
+        mc, mr = pcd_chunk(cfg), card_chunk(cfg)
+        x = {"via": "transceive", "clen": 2 * mc + 1, "rlen": mr - 1, "id": next(ident) & 0xFFFF}
+        emit(R, {"cfg": cfg, "x": x, "warm": 0})
+        emit(R, {"cfg": cfg, "x": x, "warm": 1, "script": [[1, "l"]]})
     # Type 4A activation variants: every subset of TA(1)/TB(1)/TC(1) x historical bytes; the card uses its whole FWT
     if desc["shard"] % 4 == 0:
         from vf.sim.t4t import build_ats
